@@ -19,6 +19,8 @@ import time
 for _v in ("OMP_NUM_THREADS", "OPENBLAS_NUM_THREADS", "MKL_NUM_THREADS"):
     os.environ.setdefault(_v, "1")
 
+import numpy as np
+
 from .. import vlib
 from ..translate import gen, oracles, zoo
 
@@ -79,6 +81,10 @@ def _report(ctx, case, findings, replay, observed):
         ctx.violate(key_of(case.cls_name, f), f"{case.cls_name} [{case.config}]: {f['what']}", dict(replay, finding=f["kind"] + "/" + f["name"]))
 
 
+def _scalar_zero(v):
+    return v is None or (np.isscalar(v) and v == 0)
+
+
 class SubsetCase:
     """The same zoo classifier case with a third declared class and training sets that observe different subsets of
     the declared classes: the first fit sees {0, 1}, the second {1, 2} (labels shifted by one)."""
@@ -92,7 +98,7 @@ class SubsetCase:
     def build(self):
         obj = self._case.build()
         p = obj.get_params(deep=False)
-        if "classes" in p and p.get("cost_matrix") is None and p.get("class_prior") in (None, 0, 0.0):
+        if "classes" in p and p.get("cost_matrix") is None and _scalar_zero(p.get("class_prior")):
             obj.set_params(classes=[0, 1, 2])
         return obj
 
@@ -108,7 +114,7 @@ def applicable_subset(case):
     if case.family not in ("classifier", "classifier_ma"):
         return False
     p = case.build().get_params(deep=False)
-    return "classes" in p and p.get("classes") is not None and p.get("cost_matrix") is None and p.get("class_prior") in (None, 0, 0.0)
+    return "classes" in p and p.get("classes") is not None and p.get("cost_matrix") is None and _scalar_zero(p.get("class_prior"))
 
 
 def run_estimator_case(ctx, case, seed, observed, n_seq=1, seq_len=6):
